@@ -14,7 +14,10 @@ EXTENDS Naturals, Sequences, FiniteSets, TLC, Json
 
 TraceLog == ndJsonDeserialize("trace.ndjson")
 
-Notifiees == {"n1", "n2"}
+\* the notifiees that stay registered from before the first connection until after the last notification;
+\* the harness also registers transient ones (names t*) that come and go in the middle of notification
+\* rounds: the statement promises them nothing, and they must not disturb the others
+Notifiees == {"n1", "n2", "n3"}
 NoAttr == [p |-> "", lim |-> FALSE]
 
 VARIABLES l,
@@ -53,20 +56,24 @@ Move(n, c, from, to) == /\ c \in Known /\ St(n, c) = from
                         /\ cst' = [x \in DOMAIN cst \cup {<<n, c>>} |-> IF x = <<n, c>> THEN to ELSE cst[x]]
 
 \* Connected starts: at most once, never for a refused connection, never after Close returned
-TrCS == /\ IsEvent("cs") /\ swc # "closed" /\ Cur.c \notin refused
+TrCS == /\ IsEvent("cs") /\ Cur.n \in Notifiees /\ swc # "closed" /\ Cur.c \notin refused
         /\ Move(Cur.n, Cur.c, "none", "cs")
         /\ UNCHANGED <<attr, admitted, refused, gone, lastEvt, swc>>
-TrCE == /\ IsEvent("ce") /\ swc # "closed"
+TrCE == /\ IsEvent("ce") /\ Cur.n \in Notifiees /\ swc # "closed"
         /\ Move(Cur.n, Cur.c, "cs", "ce")
         /\ UNCHANGED <<attr, admitted, refused, gone, lastEvt, swc>>
 \* Disconnected starts: at most once, only after Connected has RETURNED (for every notifiee)
-TrDS == /\ IsEvent("ds") /\ swc # "closed"
+TrDS == /\ IsEvent("ds") /\ Cur.n \in Notifiees /\ swc # "closed"
         /\ ConnectedReturnedForAll(Cur.c)
         /\ Move(Cur.n, Cur.c, "ce", "ds")
         /\ UNCHANGED <<attr, admitted, refused, gone, lastEvt, swc>>
-TrDE == /\ IsEvent("de") /\ swc # "closed"
+TrDE == /\ IsEvent("de") /\ Cur.n \in Notifiees /\ swc # "closed"
         /\ Move(Cur.n, Cur.c, "ds", "de")
         /\ UNCHANGED <<attr, admitted, refused, gone, lastEvt, swc>>
+
+TrTransient == /\ (IsEvent("cs") \/ IsEvent("ce") \/ IsEvent("ds") \/ IsEvent("de") \/ IsEvent("notify") \/ IsEvent("stopnotify"))
+               /\ (Cur.ev \in {"cs", "ce", "ds", "de"} => Cur.n \notin Notifiees)
+               /\ UNCHANGED <<attr, cst, admitted, refused, gone, lastEvt, swc>>
 
 \* addConn returned success: Connected has been delivered to every notifiee
 TrAdmitted == /\ IsEvent("admitted") /\ Cur.c \in Known /\ Cur.c \notin admitted \cup refused
@@ -120,7 +127,7 @@ TrSwCloseRet == /\ IsEvent("sw_close_ret") /\ swc = "closing"
                 /\ swc' = "closed"
                 /\ UNCHANGED <<attr, cst, admitted, refused, gone, lastEvt>>
 
-TraceNext == \/ TrReset \/ TrConn \/ TrCS \/ TrCE \/ TrDS \/ TrDE \/ TrAdmitted \/ TrRefused \/ TrStream
+TraceNext == \/ TrTransient \/ TrReset \/ TrConn \/ TrCS \/ TrCE \/ TrDS \/ TrDE \/ TrAdmitted \/ TrRefused \/ TrStream
              \/ TrClosing \/ TrCloseRet \/ TrEvt \/ TrListed \/ TrSwCloseCall \/ TrSwCloseRet
 
 TraceSpec == TraceInit /\ [][TraceNext]_vars
